@@ -98,6 +98,24 @@ theorem C04_merge_translation_partial {α} (segs : List (Segment α)) (s : Nat) 
     exact hlive ps
   exact ⟨h, hl, fun h0 => List.eq_nil_of_length_eq_zero (hl.trans h0)⟩
 
+/-- Translation of per-document data (stored fields, field norms, fast-field values): what
+`write_fieldnorms` / the shuffled columnar merge / the per-doc store copy produce through the
+new→old table is exactly the live documents of the sources in source order. -/
+theorem C04_merge_translation_docs {α} (segs : List (Segment α))
+    (hlen : ∀ s ∈ segs, s.docs.length = s.alive.length) :
+    (dump (mergeModel segs)).docs = (mergeSpec segs).docs :=
+  mergeModel_docs segs hlen
+
+/-- `write_storable_fields`: stacking the whole doc store of a source without deletes (whatever
+the `stackable` predicate — enough checkpoints, same compressor — decides per source) and
+copying live docs one by one for the others gives the same documents as the table-driven copy. -/
+theorem C04_store_stack_or_copy {α} (stackable : Nat → Bool) (segs : List (Segment α))
+    (hlen : ∀ s ∈ segs, s.docs.length = s.alive.length) :
+    mergedStore stackable 0 segs = (dump (mergeModel segs)).docs := by
+  rw [mergeModel_docs segs hlen, mergedStore_eq stackable 0 segs hlen]
+  show _ = liveDocs (segs.map (·.docs)).flatten (segs.map (·.alive)).flatten
+  rw [liveDocs_flatten segs hlen]
+
 /-- three sources: one with a deleted doc, one fully deleted, one intact -/
 def exSegs : List (Segment Nat) :=
   [ { docs := [7, 8, 9], alive := [true, false, true],
@@ -110,6 +128,8 @@ example : newToOld exSegs = [(0, 0), (0, 2), (2, 0), (2, 1)] := by decide
 example : getAddr (oldToNew exSegs) 0 2 = some 1 ∧ getAddr (oldToNew exSegs) 0 1 = none
     ∧ getAddr (oldToNew exSegs) 2 1 = some 3 := by decide
 example : (dump (mergeModel exSegs)).docs = [7, 9, 4, 5] := by decide
+example : ∀ s ∈ exSegs, s.docs.length = s.alive.length := by decide
+example : mergedStore (fun i => i == 2) 0 exSegs = [7, 9, 4, 5] := by decide
 example : (dump (mergeModel exSegs)).terms = (mergeSpec exSegs).terms := by decide
 example : (mergedTerms exSegs).map (fun t => (t.1, t.2.1)) = [([97], 2), ([98], 1), ([99], 1)] := by
   decide
